@@ -319,8 +319,16 @@ def main(prop_id, tier, replay=None, only=None):
 
     for e in known:
         if e.get("status") == "known":
-            print("KNOWN-FINDING: property=%s %s [%s; %d matching cases excluded in this run]"
-                  % (prop_id, e["what"], e["tag"], total.excluded.get(e["tag"], 0)))
+            still = True
+            if e.get("regress") and not only:
+                try:
+                    fl = replay_file(mod, os.path.join(VERIF, e["regress"]), set())
+                    still = any(f.split(":", 1)[0] == e["tag"] for f in fl)
+                except Exception:
+                    still = True
+            print("%s: property=%s %s [%s; %d matching cases excluded in this run]"
+                  % ("KNOWN-FINDING" if still else "KNOWN-FINDING-GONE", prop_id, e["what"], e["tag"],
+                     total.excluded.get(e["tag"], 0)))
     print("%s %s seed=%d: %d cases, %d distinct non-trivial, %.1fs" %
           (prop_id, tier, seed, total.evals, len(total.digests), wall))
     for k, v in sorted(total.worst.items()):
